@@ -94,6 +94,7 @@ func c11Digest(req *http.Request, body []byte) string {
 
 var c11CurJWKS []byte
 var c11STSNoExpiry bool
+var c11HugeNumber bool
 
 // installParties registers the stateless simulated parties.
 func c11Parties(e *env) {
@@ -117,8 +118,13 @@ func c11Parties(e *env) {
 				"exp": time.Now().Unix() + 7200, "digest": c11Digest(req, body)})
 		default: // userinfo
 			user := strings.TrimPrefix(req.Header.Get("Authorization"), "Bearer ")
-			json.NewEncoder(w).Encode(map[string]any{"sub": user, "active": user != "bob", "role": map[string]string{"alice": "user", "bob": "admin"}[user], "digest": c11Digest(req, body),
+			doc, _ := json.Marshal(map[string]any{"sub": user, "active": user != "bob", "role": map[string]string{"alice": "user", "bob": "admin"}[user], "digest": c11Digest(req, body),
 				"groups": map[string]any{"g1": "x", "g2": "y", "g3": user}})
+			if c11HugeNumber {
+				// a valid JSON number beyond what a float64 holds (the subject attributes then carry +Inf)
+				doc = append(doc[:len(doc)-1], []byte(`,"credit_limit":1e999}`)...)
+			}
+			w.Write(doc)
 		}
 	})
 	pdp := func(w http.ResponseWriter, req *http.Request) {
@@ -612,6 +618,13 @@ func c11Sim(r *simcore.Run) {
 		}
 		c11CurJWKS = sc.jwks
 		c11STSNoExpiry = sc.stsNoExpiry
+		c11HugeNumber = sc.kind != "generic-authn" && s.Draw(4, "identity-document-with-a-huge-number") == 3
+		if c11HugeNumber {
+			sc.describe += " huge-number-attribute"
+			if sc.variation == "" {
+				sc.variation = "huge-number-attribute"
+			}
+		}
 		envMutate = nil
 		if sc.signed {
 			envMutate = func(c *config.Configuration) {
